@@ -269,3 +269,32 @@ def fresh_infos(chk, rule):
     ok = not memos and len(builds) == 1
     chk.inst(rule, f"{f.ref}::rebuilt-per-access", ok, "Infos(self) is rebuilt at every access (its guard never finds a stored object), so derived quantities follow the state" if ok else
              "the Infos object is cached in the state's metadata: mean motion, period, … keep the values of the first access after the elements change, and copies carry it", loc(f, f.node))
+
+
+def shared_class_state(chk, rule, only_modules=None):
+    """`self.x = SomeClass` (the class object, not an instance) followed by `self.x.attr = …` stores: the writes land on the
+    class, i.e. on state shared by every instance of the owner."""
+    from .model import loc
+    n = 0
+    for c in chk.repo.all_classes():
+        if only_modules is not None and c.module.rel not in only_modules:
+            continue
+        for f in list(c.methods.values()) + list(c.setters.values()):
+            holders = {}
+            for st in ast.walk(f.node):
+                if isinstance(st, ast.Assign) and len(st.targets) == 1 and isinstance(st.targets[0], ast.Attribute) and unparse(st.targets[0].value) == "self":
+                    v = st.value
+                    is_cls = isinstance(v, ast.Name) and isinstance(chk.repo.resolve_name(c.module, v.id), type(c))
+                    is_inst = isinstance(v, ast.Call) and isinstance(v.func, ast.Name) and isinstance(chk.repo.resolve_name(c.module, v.func.id), type(c))
+                    if is_cls or is_inst:
+                        holders[st.targets[0].attr] = (is_cls, st)
+            for attr, (is_cls, st) in holders.items():
+                writes = [w for w in ast.walk(f.node) if isinstance(w, ast.Assign) and any(
+                    isinstance(t, ast.Attribute) and unparse(t.value) == f"self.{attr}" for t in w.targets)]
+                if not writes:
+                    continue
+                n += 1
+                chk.inst(rule, f"{f.ref}::self.{attr}", not is_cls, f"`self.{attr}` is a fresh instance; {len(writes)} attributes are stored on it" if not is_cls else
+                         f"`self.{attr} = {unparse(st.value)}` binds the class itself, and {len(writes)} attributes are then stored on it: they are shared by every "
+                         f"instance, so initialising a second object overwrites the constants of the first", loc(f, st))
+    return n
